@@ -71,6 +71,7 @@ func main() {
 	if cfgFilter != nil {
 		r.Cap("diagnostic run: C28_CFG_FILTER restricts family (a) to cases matching " + cfgFilter.String())
 	}
+	os.Remove(workDir() + "/guard_oom_cases.jsonl")
 	var all []pviol
 	// ---- family (a)
 	if os.Getenv("C28_ONLY_REQ") == "" {
